@@ -209,6 +209,15 @@ def findings_for(ctx: Ctx):
     return [f for f in ctx.findings.get("findings", []) if ctx.pid in f.get("properties", [f.get("property")])]
 
 
+def findings_by_site(ctx: Ctx):
+    """all recorded findings, those listing this property first.  A finding is identified by its call site (the key of
+    harness/hyp.py it falsifies), not by the property whose check happened to meet it: the same defect can surface as
+    an unsafe result (C04), a changed cost (C02) or a lost answer set (C01), and is then the same known finding."""
+    own = findings_for(ctx)
+    rest = [f for f in ctx.findings.get("findings", []) if f not in own and str(f.get("key", "")).startswith("Hyp_")]
+    return own + rest
+
+
 # ------------------------------------------------------------------ verdict + evidence
 
 def write_replay(ctx: Ctx, name: str, data: dict) -> str:
